@@ -49,6 +49,15 @@ def gen_cases(ctx):
     n = ctx.n(3200, 40000)
     for i in range(n):
         fam = i % 8
+        if fam == 3:  # random molecule (rings 3..12, fused / spiro / bridged, several centres)
+            from .. import molgen
+
+            skel = molgen.random_smiles(rng, n_heavy=(4, 12), p_triple=0.0, bredt=True)
+            iso = molgen.stereoisomers(skel, rng, max_isomers=4) if skel else []
+            if not iso:
+                continue
+            yield {"kind": "mol", "smiles": iso[rng.randrange(len(iso))], "eseed": rng.randrange(1, 100000), "relax": rng.random() < 0.6, "random_molecule": True}
+            continue
         if fam < 4:
             skel = c12.SKELETONS[(i // 8 * 4 + fam) % len(c12.SKELETONS)]
             iso = c12.isomers(skel)
@@ -133,6 +142,18 @@ def _mol(ctx, case):
             if min(geom.apex_distances(X, [n.GetIdx() for n in a.GetNeighbors()])) < 1.2:
                 ctx.count("skipped:embedding-with-flattened-sp3-centre")
                 return
+    # input sanity: a three-coordinate end of a formal double bond lies in the plane of its neighbours (0 A); MMFF turns
+    # some strained ones (halogenated cyclopropenes) into pyramids of 0.5 A, i.e. into sp3 centres
+    for bnd in m.GetBonds():
+        if bnd.GetBondType() == Chem.BondType.DOUBLE and not bnd.GetIsAromatic():
+            for a in (bnd.GetBeginAtom(), bnd.GetEndAtom()):
+                if a.GetDegree() == 3:
+                    nbs = [n.GetIdx() for n in a.GetNeighbors()]
+                    nrm = np.cross(X[nbs[1]] - X[nbs[0]], X[nbs[2]] - X[nbs[0]])
+                    ln = np.linalg.norm(nrm)
+                    if ln > 1e-9 and abs(np.dot(nrm / ln, X[a.GetIdx()] - X[nbs[0]])) > 0.25:
+                        ctx.count("skipped:embedding-with-pyramidal-sp2-centre")
+                        return
     ph = _classify(m)
     fam = "a1" if not ph else "a2"
     ctx.count(f"{fam}_molecules")
